@@ -50,8 +50,26 @@ def cfgDeny : List String → String
     s!"admitted={a} ipadmitted={b} control={c}"
   | _ => "bad-op"
 
+/-- histories: `caov <mask> <shape A> <shape B>` (B checked while A is parked inside the password backend) and
+`caexp <mask> <shape>` (the same cookie while valid and again after its expiry): every call of `checkAuth` decides on
+the request it was given, at the time it runs -/
+def hist : List String → String
+  | "caov" :: mask :: rest =>
+    if rest.length != 14 then "bad-op" else
+    match mask.toNat?, parseReq (rest.take 7), parseReq (rest.drop 7) with
+    | some m, some a, some b => outStr (checkAuth a.cfg a.req m) ++ " | " ++ outStr (checkAuth b.cfg b.req m)
+    | _, _, _ => "bad-op"
+  | "caexp" :: mask :: rest =>
+    match mask.toNat?, parseReq rest with
+    | some m, some p =>
+      outStr (checkAuth p.cfg p.req m) ++ " | " ++ outStr (checkAuth p.cfg { p.req with now := laterNow } m)
+    | _, _ => "bad-op"
+  | _ => "bad-op"
+
 def both : List String → String
   | "cfgdeny" :: rest => cfgDeny ("cfgdeny" :: rest)
+  | "caov" :: rest => hist ("caov" :: rest)
+  | "caexp" :: rest => hist ("caexp" :: rest)
   | "ca" :: rest => model ("ca" :: rest)
   | "rt" :: rest => route ("rt" :: rest)
   | _ => "bad-op"
